@@ -168,6 +168,33 @@ pub fn generate(tier: Tier, rng: &mut Rng) -> Vec<Case> {
             out.push(c);
         }
     }
+    // deeply nested lists and maps (10 to 120 levels): equal to an identical copy and to a clone of
+    // themselves, unequal to a copy that differs at the innermost level, never ordered
+    for depth in [10usize, 40, 64, 65, 66, 70, 100, 120] {
+        let nest = |leaf: Value, d: usize, map: bool| -> Value {
+            let mut v = leaf;
+            for i in 0..d {
+                v = if map && i % 2 == 1 {
+                    Value::Map(cel_interpreter::objects::Map { map: Arc::new(std::collections::HashMap::from([(cel_interpreter::objects::Key::Int(0), v)])) })
+                } else {
+                    Value::List(Arc::new(vec![v]))
+                };
+            }
+            v
+        };
+        for map in [false, true] {
+            let a = nest(Value::Int(1), depth, map);
+            let b = nest(Value::Int(1), depth, map);
+            let c = nest(Value::Int(2), depth, map);
+            let d = nest(Value::Float(1.0), depth, map);
+            let shorter = nest(Value::Int(1), depth - 1, map);
+            for (x, y) in [(&a, &a), (&a, &b), (&a, &c), (&a, &d), (&a, &shorter), (&c, &a)] {
+                let mut case = Case::new("cmp2", format!("{} {}", value_to_sx(x).to_text(), value_to_sx(y).to_text()));
+                case.tags = vec!["deep", "same-kind"];
+                out.push(case);
+            }
+        }
+    }
     // random numeric pairs near the precision cliffs
     let n = match tier {
         Tier::Quick => 4000,
